@@ -26,7 +26,7 @@ class C05(Check):
         return pipegen.PCfg(
             weights={"arrange": 16, "mutate": 16, "filter": 7, "slice_head": 8, "select": 4, "rename": 4, "alias": 4,
                      "group_by": 5, "ungroup": 3, "drop": 1, "summarize": 0, "join": 0, "union": 0, "collect": 0},
-            max_len=9 if deep else 6, min_len=2, agg_in_mutate=True, win_in_mutate=True, max_tables=1,
+            max_len=9 if deep else 6, min_len=2, agg_in_mutate=True, win_in_mutate=True, max_tables=1, win_direct=5,
             expr=Cfg(max_depth=3),
         )
 
